@@ -4,7 +4,9 @@ Model: coq/Bind/Model.v   Theorems: coq/Props/C11.v
 Correspondence (every case is evaluated inside Coq by vm_compute):
   (i)   py_bind (S-model: Python's binding rule)      vs  a REAL Python call of a function built with exec
   (ii)  impl_bind (M-model of wrapper_render + validators + final call)
-                                                        vs  the REAL tag (probe BaseNode / @template_tag returning locals())
+                                                        vs  the REAL tag: a probe returning locals(), built as a BaseNode subclass, with
+                                                            @template_tag (both: fast path) or with a callable object as render()
+                                                            (no __code__: the real tag takes the inspect.Signature fallback)
   (iii) validate_code / validate_sig                    vs  _validate_params_with_code / validate_params(func=None) called directly,
                                                             also on the render() functions of the built-in tags
 Direct property oracle (independent of the model): tag result == result of the equivalent Python call on the same function.
@@ -15,21 +17,21 @@ import itertools
 import json
 import keyword
 import os
+import time
 
 import common as C
 
 IMPORTS = "From DJC Require Import Lib.Base Bind.Model."
-# Which variant of the M-model the implementation is compared with: "current" (= Model.current_cfg, what /repo does now) or
-# "fixed" (both repairs of notes/fixes/C11-*.patch switched on; for trying the patches on a scratch copy before Model.v is updated).
-CFG = os.environ.get("VERIF_C11_CFG", "current")
-CHECK_BOTH = "check_both" if CFG == "current" else "(check_both_cfg fixed_cfg)"
-CHECK_VALIDATE = "check_validate" if CFG == "current" else "(check_validate_cfg fixed_cfg)"
+CHECK_BOTH = "check_both"
+CHECK_VALIDATE = "check_validate"
 SV, CV = 1000, 1001          # how `self` / `context` are printed
 WEIRD = 999999               # any other non-int value
 
-T_POSONLY_DEFAULT = "c11-posonly-default"            # fixed in 3c868d2 - must stay fixed
-T_POSONLY_KW = "c11-posonly-name-as-kwarg"
-T_DUP_SPECIAL = "c11-duplicate-special-key"
+# trigger classes (decided on the input).  All four were defects, all four are fixed: a failure in them is a VIOLATION again.
+T_POSONLY_DEFAULT = "c11-posonly-default"            # fixed in 3c868d2
+T_POSONLY_KW = "c11-posonly-name-as-kwarg"           # fixed in 81cf028
+T_DUP_SPECIAL = "c11-duplicate-special-key"          # fixed in 8478320
+T_NONSTR = "c11-nonstring-spread-key"                # fixed in 87d326f: a spread mapping has a key that is not a str (None, an int, a tuple)
 T_OTHER = "c11-other"
 
 
@@ -46,10 +48,21 @@ def mk_sig(po=(), pk=(), va=None, ko=(), vk=None, lead=None, names=("self", "con
     return {"lead": lead, "po": po, "pk": pk, "va": va, "ko": ko, "vk": vk, "names": list(names)}
 
 
-def sig_src(sig, fname="render"):
-    lead = [[n, None] for n in sig["names"]]
+OBJ = "_c11_obj"      # own first parameter of the callable-object variant (positional-only, never used as a key)
+
+
+def lead_params(sig):
+    """self / context; `def render(self=1, context=2, a=3)` is legal Python (then every positional parameter has a default)."""
+    return [[n, d] for n, d in zip(sig["names"], sig.get("lead_defaults") or [None, None])]
+
+
+def sig_src(sig, fname="render", obj=False):
+    lead = lead_params(sig)
     pos = lead + sig["po"] + sig["pk"]
     npo = sig["lead"] + len(sig["po"]) if sig["lead"] == 2 else sig["lead"]
+    if obj:
+        pos = [[OBJ, None]] + pos
+        npo += 1
     parts = []
     for i, (n, d) in enumerate(pos):
         parts.append(n if d is None else "%s=%d" % (n, d))
@@ -72,9 +85,20 @@ def make_fn(sig, out, fname="render"):
     return ns[fname]
 
 
+def make_callable_obj(sig, out):
+    """An object without __code__ whose __call__ has the signature of render(): inspect.signature(obj) == signature of
+    make_fn(sig), validate_params() takes the fallback path, orig_render(self, context, *a, **kw) binds through __call__."""
+    ns = {"OUT": out}
+    src = "class RenderObj:\n" + "".join("    " + l + "\n" for l in sig_src(sig, "__call__", obj=True).split("\n") if l)
+    exec(src, ns)
+    o = ns["RenderObj"]()
+    assert not hasattr(o, "__code__")
+    return o
+
+
 def full_parts(sig):
     """(s_po, s_pk) of the FULL signature as in the Coq model."""
-    lead = [[n, None] for n in sig["names"]]
+    lead = lead_params(sig)
     L = sig["lead"]
     return lead[:L] + sig["po"], lead[L:] + sig["pk"]
 
@@ -87,11 +111,12 @@ class Lit:
     """Compact Coq literals: strings and signatures are named once in a header (parsing dominates coqc time)."""
     HDR = ("Local Open Scope N_scope.\n"
            "Definition P := mkP.\nDefinition K (k : str) (v : N) : str * N := (k, v).\n"
+           "Definition D (k : dkey) (v : N) : dkey * N := (k, v).\n"
            "Definition KO (k : option str) (v : N) : option str * N := (k, v).\n"
            "Definition B a b c : res binding := Ok (mkB a b c).\n"
            "Definition ET {A} : res A := Err TypeError.\nDefinition ES {A} : res A := Err SyntaxError.\n"
            "Definition EI {A} : res A := Err IndexError.\nDefinition EO {A} : res A := Err OtherError.\n"
-           "Definition Cs (F : sig) (c : list targ) (p t : res binding) : both_case := (F, c, p, t).\n"
+           "Definition Cs (u : bool) (F : sig) (c : list targ) (p t : res binding) : both_case := (u, F, c, p, t).\n"
            "Definition Cp (F : sig) (c : list targ) (p : res binding) : pybind_case := (F, c, p).\n"
            "Definition Cv (u : bool) (F : sig) (ps : list (option str * N)) (ex : list (str * N)) (r : res binding) "
            ": validate_case := (u, F, ps, ex, r).\n")
@@ -128,6 +153,11 @@ class Lit:
     def kvs(self, l):
         return self.lst(["K %s %d" % (self.s(k), v) for k, v in l])
 
+    def dkvs(self, l):
+        """items of a spread mapping: keys are str | None | any other hashable (written as a JSON list = a tuple)"""
+        return self.lst(["D %s %d" % ("(DStr %s)" % self.s(k) if isinstance(k, str) else "DNone" if k is None else "DOther", v)
+                         for k, v in l])
+
     def call(self, call):
         out = []
         for a in call:
@@ -138,7 +168,7 @@ class Lit:
             elif a[0] == "sl":
                 out.append("TSpreadL %s" % self.lst(["%d" % v for v in a[1]]))
             else:
-                out.append("TSpreadD %s" % self.kvs(a[1]))
+                out.append("TSpreadD %s" % self.dkvs(a[1]))
         return self.lst(out)
 
     def obs(self, o):
@@ -186,7 +216,27 @@ def sig_from_function(fn):
 # ----------------------------------------------------------------------------------------------
 # calls: list of ["pos", v] | ["kw", k, v] | ["sl", [v..]] | ["sd", [[k, v]..]]
 # ----------------------------------------------------------------------------------------------
+class NonStr:
+    """A key of a spread mapping that is not a str: None, or (JSON list ->) a tuple."""
+    def __init__(self, key):
+        self.key = tuple(key) if isinstance(key, list) else key
+
+    def __repr__(self):
+        return repr(self.key)
+
+    def __eq__(self, o):
+        return isinstance(o, NonStr) and o.key == self.key
+
+    def __hash__(self):
+        return hash(("NonStr", self.key))
+
+
+def real_key(k):
+    return k if isinstance(k, str) else NonStr(k).key
+
+
 def entries_of(call):
+    """(None, v) = positional, (str, v) = keyword, (NonStr, v) = item of a spread mapping whose key is not a str"""
     es = []
     for a in call:
         if a[0] == "pos":
@@ -196,12 +246,16 @@ def entries_of(call):
         elif a[0] == "sl":
             es.extend((None, v) for v in a[1])
         else:
-            es.extend((k, v) for k, v in a[1])
+            es.extend((k if isinstance(k, str) else NonStr(k), v) for k, v in a[1])
     return es
 
 
+def has_nonstr(call):
+    return any(isinstance(k, NonStr) for k, _ in entries_of(call))
+
+
 def is_special(k):
-    return (not k.isidentifier()) or keyword.iskeyword(k)
+    return isinstance(k, NonStr) or (not k.isidentifier()) or keyword.iskeyword(k)
 
 
 def pos_after_kw(es):
@@ -270,18 +324,22 @@ class Probe:
     """One registered probe tag for one signature."""
     counter = [0]
 
-    def __init__(self, sig, via_decorator=False):
+    VARIANTS = ("class", "decorator", "callable")
+
+    def __init__(self, sig, variant="class"):
         from django_components import BaseNode, template_tag
         import django_components.templatetags.component_tags as ct
-        self.sig, self.out = sig, []
+        self.sig, self.out, self.variant = sig, [], variant
+        self.use_code = variant != "callable"       # which validation path the real tag takes
         Probe.counter[0] += 1
         self.tag = "c11p%d" % Probe.counter[0]
         self.lib = ct.register
-        self.fn = make_fn(sig, self.out)
-        if via_decorator:
+        if variant == "decorator":
+            self.fn = make_fn(sig, self.out)
             template_tag(self.lib, tag=self.tag)(self.fn)
             self.cls = self.fn._node
         else:
+            self.fn = make_fn(sig, self.out) if variant == "class" else make_callable_obj(sig, self.out)
             self.cls = type("C11Probe%d" % Probe.counter[0], (BaseNode,), {"tag": self.tag, "render": self.fn})
             self.cls.register(self.lib)
 
@@ -300,7 +358,7 @@ class Probe:
                 ctx["l%d" % i] = list(a[1])
                 parts.append("...l%d" % i)
             else:
-                ctx["d%d" % i] = dict((k, v) for k, v in a[1])
+                ctx["d%d" % i] = dict((real_key(k), v) for k, v in a[1])
                 parts.append("...d%d" % i)
         src = "{% " + " ".join([self.tag] + parts) + " %}"
         del self.out[:]
@@ -319,6 +377,8 @@ class Probe:
 # ----------------------------------------------------------------------------------------------
 def classify(sig, call):
     es = entries_of(call)
+    if any(isinstance(k, NonStr) for k, _ in es):
+        return T_NONSTR
     npos = sum(1 for k, _ in es if k is None)
     keys = [k for k, _ in es if k is not None]
     if sig["vk"] and any(k in [n for n, _ in sig["po"]][:npos] for k in keys):
@@ -387,7 +447,7 @@ def all_sigs(n):
     return out
 
 
-def alphabet(sig, rich=False):
+def alphabet(sig, rich=False, nonstr=False):
     names = param_names(sig)
     al = [("pos",)] + [("kw", n) for n in names] + [("kw", "u"), ("kw", "data-x"), ("kw", "class"), ("sl", 2), ("sd", 0)]
     if rich:
@@ -397,6 +457,8 @@ def alphabet(sig, rich=False):
             al.append(("kw", sig["va"]))
         if sig["vk"]:
             al.append(("kw", sig["vk"]))
+        if nonstr:
+            al += [("sd", 3), ("sd", 4), ("sd", 5)]
     return al
 
 
@@ -414,7 +476,8 @@ def concretise(sig, symbols):
         else:
             k0 = names[0] if names else "u"
             kvs = [[[k0, 100 + 10 * i], ["data-x", 101 + 10 * i]], [[names[-1] if names else "v", 100 + 10 * i]],
-                   [["class", 100 + 10 * i], ["u", 101 + 10 * i]]][s[1]]
+                   [["class", 100 + 10 * i], ["u", 101 + 10 * i]],
+                   [[None, 100 + 10 * i]], [["u", 100 + 10 * i], [7, 101 + 10 * i]], [[["t"], 100 + 10 * i]]][s[1]]
             call.append(["sd", kvs])
     return call
 
@@ -444,11 +507,23 @@ def random_sig(rng, maxn=5):
                    lead=2 if npo else rng.choice([0, 1, 2]))
     if rng.random() < 0.3:
         s = dict(s, names=["node", "context"])
+    if rng.random() < 0.06 and all(d is not None for _, d in s["po"] + s["pk"]):
+        s = dict(s, lead_defaults=rng.choice([[None, 801], [800, 801]]))     # defaults reaching back into self / context
     return s
 
 
-def random_call(rng, sig, maxlen=5):
-    al = alphabet(sig, rich=True)
+def nonstr_calls(sig, maxlen):
+    """every sequence over {positional, first parameter name, non-identifier key, {None: v}, {"u": v, 7: w}, {("t",): v}}"""
+    names = param_names(sig)
+    al = [("pos",), ("kw", names[0] if names else "u"), ("kw", "data-x"), ("sd", 3), ("sd", 4), ("sd", 5)]
+    for L in range(1, maxlen + 1):
+        for syms in itertools.product(al, repeat=L):
+            if any(s[0] == "sd" for s in syms):     # all of them are non-str-key spreads here
+                yield concretise(sig, syms)
+
+
+def random_call(rng, sig, maxlen=5, nonstr=True):
+    al = alphabet(sig, rich=True, nonstr=nonstr)
     w = [6 if s[0] == "pos" else 3 if (s[0] == "kw" and s[1] in param_names(sig)) else 1 for s in al]
     L = rng.randint(0, maxlen)
     syms = rng.choices(al, w, k=L)
@@ -483,14 +558,14 @@ def run_case(chk, probe, sig, call, kind, terms, meta, pyfn, pyout):
     chk.count((sig_src(sig), tuple(map(repr, call))), nt, kind=kind,
               sample={"render": sig_src(sig).split("\n")[0], "tag": src, "python": py, "tag_result": tag} if (nt and kind.startswith("random") and py[0] == "ok") else None)
     if why:
-        chk.fail(classify(sig, call), why, {"kind": "tag", "sig": sig, "call": call, "template": src,
+        chk.fail(classify(sig, call), why, {"kind": "tag", "sig": sig, "call": call, "template": src, "variant": probe.variant,
                                             "render": sig_src(sig).split("\n")[0], "python": py, "tag": tag})
-    terms.append("Cs %s %s %s %s" % (LIT.sig(sig), LIT.call(call), LIT.obs(py), LIT.obs(tag)))
-    meta.append((sig, call, py, tag, src))
+    terms.append("Cs %s %s %s %s %s" % (C.cbool(probe.use_code), LIT.sig(sig), LIT.call(call), LIT.obs(py), LIT.obs(tag)))
+    meta.append((sig, call, py, tag, src + " [render() built as: %s]" % probe.variant))
 
 
 def run_sig(chk, sig, calls, kind, terms, meta, idx):
-    probe = Probe(sig, via_decorator=(idx % 2 == 1))
+    probe = Probe(sig, Probe.VARIANTS[idx % 3])
     pyout = []
     pyfn = make_fn(sig, pyout)
     try:
@@ -524,7 +599,7 @@ def run_validator(use_code, fn, vsig, params, extra, stub, stub_out, sig, defaul
 
 def validator_cases(chk, sig, fn, vsig, n, rng, terms, meta, kind, stub, stub_out, defaults=None):
     for _ in range(n):
-        call = random_call(rng, sig, 5)
+        call = random_call(rng, sig, 5, nonstr=False)     # the validators receive TagParams, keys are str there
         es = entries_of(call)
         if pos_after_kw(es):
             es = [e for e in es if e[0] is None] + [e for e in es if e[0] is not None]
@@ -569,11 +644,17 @@ def run(tier, seed):
     thorough = tier == "thorough"
     rng = chk.rng
     terms, meta = [], []
+    phases, t_last = {}, [time.time()]
+
+    def lap(name):
+        phases[name] = round(time.time() - t_last[0], 1)
+        t_last[0] = time.time()
+    lap("prove")
 
     # ---- 0. corpus: witnesses of fixed / reported defects, direct oracle first ----
     for i, c in enumerate(load_corpus()):
-        run_sig(chk, c["sig"], [c["call"]], "corpus", terms, meta, 0)
-        run_sig(chk, c["sig"], [c["call"]], "corpus", terms, meta, 1)   # also through @template_tag
+        for v in range(3):      # BaseNode subclass, @template_tag, callable object (fallback path)
+            run_sig(chk, c["sig"], [c["call"]], "corpus", terms, meta, v)
 
     # ---- 1. exhaustive: every signature shape x every argument sequence (shortest first) ----
     plan = [(0, 4), (1, 4 if thorough else 3), (2, 3 if thorough else 2), (3, 3 if thorough else 2), (4, 2 if thorough else 1)]
@@ -587,12 +668,19 @@ def run(tier, seed):
                 sig = dict(sig, names=["node", "context"])
             run_sig(chk, sig, exhaustive_calls(sig, maxlen), "exh-n%d-len<=%d" % (n, maxlen), terms, meta, idx)
 
+    # ---- 1b. spread mappings with a key that is not a str (None / a tuple): all shapes n<=2 x sequences<=2 around them ----
+    for n in (0, 1, 2):
+        for sig in all_sigs(n):
+            idx += 1
+            run_sig(chk, sig, nonstr_calls(sig, 2), "exh-nonstr-key-n%d-len<=2" % n, terms, meta, idx)
+
     # ---- 2. random: up to 5 parameters, up to 5 arguments, richer key alphabet ----
     for _ in range(6000 if thorough else 700):
         sig = random_sig(rng, 5)
         idx += 1
         run_sig(chk, sig, [random_call(rng, sig, 5) for _ in range(12)], "random", terms, meta, idx)
 
+    lap("run-tags+python")
     bad = C.coq_eval_cases("C11", "both", IMPORTS, "both_case", CHECK_BOTH, terms, shard=4000, extra_defs=LIT.header())
     if bad:
         sub = bad[:40]
@@ -605,6 +693,7 @@ def run(tier, seed):
             chk.disagree(which, {"kind": "tag", "sig": sig, "call": call, "template": src, "render": sig_src(sig).split("\n")[0],
                                  "python": py, "tag": tag})
 
+    lap("coq-eval-tags")
     # ---- 3. validators called directly (fast path and fallback), incl. the built-in tags' render() ----
     vterms, vmeta = [], []
     sigs = [s for n in range(0, 4) for s in all_sigs(n)]
@@ -625,16 +714,20 @@ def run(tier, seed):
         stub = make_fn(sig, out)
         validator_cases(chk, sig, fn, cls._signature, 400 if thorough else 120, rng, vterms, vmeta, "validators-builtin-" + cls.tag,
                         stub, out, defaults=dflt)
+    lap("run-validators")
     bad = C.coq_eval_cases("C11", "val", IMPORTS, "validate_case", CHECK_VALIDATE, vterms, shard=4000, extra_defs=LIT.header())
     for i in bad[:20]:
         use_code, sig, params, extra, r = vmeta[i]
         chk.disagree("model != %s followed by the call of render()" % ("_validate_params_with_code" if use_code else "_validate_params_with_signature"),
                      {"kind": "validator", "use_code": use_code, "sig": sig, "params": params, "extra": extra, "impl": r})
 
+    lap("coq-eval-validators")
+    chk.extra["phase_wall_s"] = phases
     chk.assumptions = [
         "spread arguments are compared after flattening (`...list` = its items as positional arguments, `...dict` = its items as keywords): "
         "a list spread placed after a keyword is an error like any positional-after-keyword (Python itself would accept f(a=1, *xs))",
-        "keys are ASCII; keys containing ':' (aggregated kwargs) and non-string dict-spread keys are outside this property",
+        "keys are ASCII; keys containing ':' (aggregated into dicts by process_aggregate_kwargs before binding) and html_attrs' merging of "
+        "repeated keys are outside this property; keys of a spread mapping that are not str (None, int, tuple) are inside: refused by both sides",
         "kwargs are compared as dictionaries (insertion order of **kwargs is not part of the claim)",
         "render() declares self and context explicitly as its first two positional parameters (BaseNode.render contract)",
     ]
@@ -663,15 +756,15 @@ def replay(path):
         fn = make_fn(sig, out)
         py = run_python(fn, out, sig, call)
         rc = 0
-        for via in (False, True):
-            p = Probe(sig, via_decorator=via)
+        for via in Probe.VARIANTS:
+            p = Probe(sig, via)
             try:
                 tag, src = p.run(call)
             finally:
                 p.close()
             why = oracle(sig, call, py, tag)
             print("render:  ", sig_src(sig).split("\n")[0])
-            print("template:", src, "(via @template_tag)" if via else "(BaseNode subclass)")
+            print("template:", src, "(render() built as: %s)" % via)
             print("python:  ", py)
             print("tag:     ", tag)
             print("oracle:  ", why or "holds", "| class:", classify(sig, call))
